@@ -1,16 +1,28 @@
 #!/bin/bash
-# Applies every seeded change under /verif/seeded to /repo in turn (working tree only, never committed), runs the quick
-# check of its property, undoes it, and writes seeded/RESULTS.tsv.  /repo must be clean.
-cd /repo && git diff --quiet || { echo "/repo not clean"; exit 9; }
-OUT=/verif/seeded/RESULTS.tsv
-printf "seed\tproperty\texit\tfailed obligations / cases\n" > $OUT
-for d in /verif/seeded/*/; do
-  ID=$(basename $d); PROP=${ID%%-*}
-  cd /repo && git apply $d/patch.diff 2>/dev/null || { printf "%s\t%s\tAPPLY-FAILED\t(superseded by a fix commit)\n" $ID $PROP >> $OUT; continue; }
-  cd /verif && python3-vt bin/check $PROP --tier quick --no-write > /tmp/seeded_$ID.out 2>&1; RC=$?
-  cd /repo && git checkout -q -- .
-  WHAT=$(grep -E "^  failed|^  bounded|^  shape" /tmp/seeded_$ID.out | head -3 | cut -c1-160 | tr '\n\t' '; ')
-  printf "%s\t%s\t%s\t%s\n" $ID $PROP $RC "$WHAT" >> $OUT
-  rm -f /tmp/seeded_$ID.out
-done
-cat $OUT
+# Runs the quick check of its property against every seeded change under seeded/, each applied to a scratch export of
+# /repo's HEAD (git archive into a temp dir, removed afterwards; /repo's working tree is never touched), and writes
+# seeded/RESULTS.tsv.  usage: tools/run_all_seeded.sh [parallel jobs, default 2]
+VERIF=$(cd "$(dirname "$0")/.." && pwd)
+JOBS=${1:-2}
+RES=$(mktemp -d /tmp/seedres.XXXXXX)
+export VERIF RES
+work() {
+  ID=$1; PROP=${ID%%-*}
+  S=$(mktemp -d /tmp/seedrun.XXXXXX)
+  git -C /repo archive HEAD src | tar -x -C "$S"
+  if (cd "$S" && git apply "$VERIF/seeded/$ID/patch.diff" 2>/dev/null); then
+    (cd "$VERIF" && PYVC_REPO_SRC="$S/src" python3-vt bin/check "$PROP" --tier quick --no-write > "$S/out" 2>&1); RC=$?
+    WHAT=$(grep -E "^  failed|^  bounded|^  shape" "$S/out" | head -3 | cut -c1-160 | tr '\n\t' '; ')
+    printf "%s\t%s\t%s\t%s\n" "$ID" "$PROP" "$RC" "$WHAT" > "$RES/$ID.tsv"
+  else
+    printf "%s\t%s\tAPPLY-FAILED\t(superseded by a fix commit)\n" "$ID" "$PROP" > "$RES/$ID.tsv"
+  fi
+  rm -rf "$S"
+}
+export -f work
+ls "$VERIF/seeded" | grep -v "RESULTS.tsv" | xargs -P "$JOBS" -I{} bash -c 'work {}'
+OUT=$VERIF/seeded/RESULTS.tsv
+printf "seed\tproperty\texit\tfailed obligations / cases\n" > "$OUT"
+for f in $(ls "$RES" | sort); do cat "$RES/$f" >> "$OUT"; done
+rm -rf "$RES"
+cat "$OUT"
